@@ -171,8 +171,33 @@ def repeat_count(rng, allow_bad=True):
     return rng.pick(["2", F("1.5"), None, True, [2]])
 
 
+def repeat_scopes_doc(rng):
+    """two scopes at once: a document-level $repeat (integer, or named) around an entry-level $repeat in a list or as a map
+    value, with references to the OUTER index in keys that sort before and after the nested entry, and references to the
+    inner index inside it: the inner binding must shadow the outer one only inside the nested entry"""
+    named = rng.chance(1, 3)
+    outer_ref = "$repeat:x" if named else "$repeat"
+    tmpl = lambda pre: '$"%s{%s}"' % (pre, outer_ref)
+    inner = {"$repeat": rng.pick([1, 2, 3, 0]), "id": "$repeat", "label": '$"i{$repeat}"'}
+    if rng.chance(1, 2):
+        inner["o"] = tmpl("o") if named else 1      # the outer index is still visible by name inside the nested entry
+    d = {"a_first": rng.pick([outer_ref, tmpl("a")]), "z_last": rng.pick([outer_ref, tmpl("z")])}
+    where = rng.below(3)
+    if where == 0:
+        d["m_list"] = [0, inner, rng.pick([outer_ref, 9])]
+    elif where == 1:
+        d['$"m{$repeat}"' if not named else "m_map"] = inner
+    else:
+        d["m_list"] = [inner]
+        d["n_map"] = {"k": dict(inner), "after": outer_ref}
+    d["$repeat"] = {"x": rng.pick([1, 2, 3])} if named else rng.pick([1, 2, 3])
+    return d
+
+
 def repeat_doc(rng):
-    k = rng.below(10)
+    k = rng.below(11)
+    if k == 10:
+        return repeat_scopes_doc(rng)
     if k < 3:      # document level, integer
         d = repeat_body(rng, [], 2)
         if not isinstance(d, dict):
